@@ -113,8 +113,14 @@ func c03Mutations() []mutation {
 	add("gas", "+2^32", func(t *ctrlertypes.Trx, _ *sim.Chain) bool { t.Gas += 1 << 32; return true })
 	add("gas", "x2", func(t *ctrlertypes.Trx, _ *sim.Chain) bool { t.Gas *= 2; return true })
 	add("gasPrice", "+1", func(t *ctrlertypes.Trx, _ *sim.Chain) bool { t.GasPrice = addU256(t.GasPrice, "1"); return true })
-	add("gasPrice", "-1", func(t *ctrlertypes.Trx, _ *sim.Chain) bool { t.GasPrice = addU256(t.GasPrice, "-1"); return t.GasPrice != nil })
-	add("gasPrice", "+2^64", func(t *ctrlertypes.Trx, _ *sim.Chain) bool { t.GasPrice = addU256(t.GasPrice, "18446744073709551616"); return true })
+	add("gasPrice", "-1", func(t *ctrlertypes.Trx, _ *sim.Chain) bool {
+		t.GasPrice = addU256(t.GasPrice, "-1")
+		return t.GasPrice != nil
+	})
+	add("gasPrice", "+2^64", func(t *ctrlertypes.Trx, _ *sim.Chain) bool {
+		t.GasPrice = addU256(t.GasPrice, "18446744073709551616")
+		return true
+	})
 	for ty := int32(1); ty <= 8; ty++ {
 		ty := ty
 		add("type", fmt.Sprintf("relabel to %d (payload kept)", ty), func(t *ctrlertypes.Trx, _ *sim.Chain) bool {
@@ -274,8 +280,16 @@ func c03Mutations() []mutation {
 	}
 	add("sig", "truncated to 64", func(t *ctrlertypes.Trx, _ *sim.Chain) bool { t.Sig = append([]byte{}, t.Sig[:64]...); return true })
 	add("sig", "empty", func(t *ctrlertypes.Trx, _ *sim.Chain) bool { t.Sig = nil; return true })
-	add("sig", "extended", func(t *ctrlertypes.Trx, _ *sim.Chain) bool { t.Sig = append(append([]byte{}, t.Sig...), 0); return true })
-	add("sig", "v+27", func(t *ctrlertypes.Trx, _ *sim.Chain) bool { s := append([]byte{}, t.Sig...); s[64] += 27; t.Sig = s; return true })
+	add("sig", "extended", func(t *ctrlertypes.Trx, _ *sim.Chain) bool {
+		t.Sig = append(append([]byte{}, t.Sig...), 0)
+		return true
+	})
+	add("sig", "v+27", func(t *ctrlertypes.Trx, _ *sim.Chain) bool {
+		s := append([]byte{}, t.Sig...)
+		s[64] += 27
+		t.Sig = s
+		return true
+	})
 	add("sig", "signature of another tx of the same sender", func(t *ctrlertypes.Trx, ch *sim.Chain) bool {
 		o := *t
 		o.Nonce++
@@ -311,11 +325,11 @@ func c03Bases() []sim.TxSpec {
 }
 
 type c03Case struct {
-	Mode string `json:"mode"` // mutate | pairs | chain | preimage
-	Base int    `json:"base"`
-	Only int    `json:"only"` // replay: only this mutation index (-1 all)
-	Shard int   `json:"shard,omitempty"`
-	Lv   int    `json:"lv"`
+	Mode  string `json:"mode"` // mutate | pairs | chain | preimage
+	Base  int    `json:"base"`
+	Only  int    `json:"only"` // replay: only this mutation index (-1 all)
+	Shard int    `json:"shard,omitempty"`
+	Lv    int    `json:"lv"`
 }
 
 type c03 struct {
